@@ -152,7 +152,7 @@ def check_C01(ctx):
                 invariants=["Inv_C01"], ops=ops, cfg={"ds": ds, "de": de}, nontrivial=has_tag_token)
     # unwrap-blocks with tags sitting on their wrapper lines (children merged into head and tail), nesting
     gens = [lines_gen(6 if q else 8, 3, 3, ["Ru", "R", "P"], blank=False),
-            lines_gen(7 if q else 9, 2, 2, ["Ru", "Pu", "R"], blank=True, base=1),
+            lines_gen(6 if q else 9, 2, 2, ["Ru", "Pu", "R"], blank=True, base=1),
             lines_gen(7 if q else 9, 2, 2, ["Ru"], blank=False, pairs=True, max_code=4),     # touching removed regions + unwrap
             lines_gen(14, 3, 5, ["Ru", "R", "P", "Pu", "T", "S"], free=(0, 2), ws=(2,), simulate=(40 if q else 5000, 14))]
     ctx.job("unwrap-wrapper-tags", gens=gens, invariants=["Inv_C01"], ops=ops, cfg={"ds": "<", "de": ">"}, nontrivial=has_ready)
@@ -364,8 +364,22 @@ def tab_column_jobs(ctx, invariants, ops):
     ctx.job("tab-columns", gens=gens, invariants=invariants, ops=ops, cfg={"ds": "<", "de": ">"}, nontrivial=has_ready)
 
 
+def list_model_checking(ctx):
+    """the transcribed list / list_all (markers + rendering) satisfy C15 - C17 on GenLines documents (no code)"""
+    from engine import DEFAULT_CFG
+    from vlib import base_consts
+    q = ctx.quick
+    for (nm, g) in [("block", lines_gen(5 if q else 6, 2, 2, ["R", "P"], ws=(2,))),
+                    ("unwrap", lines_gen(7 if q else 8, 2, 2, ["Ru", "P", "R"], blank=False)),
+                    ("tabs", lines_gen(5 if q else 6, 2, 2, ["R", "Pu"], unit=" \t", base=1, blank=True))]:
+        consts = dict(base_consts(dict(DEFAULT_CFG), [], "mc"))
+        consts.update(g["consts"])
+        ctx.mc("list-" + nm, "MC_List", consts, ["ListSatisfiesR"], constraint="Feasible")
+
+
 def check_C16(ctx):
     ops = [{"op": "list_json"}, {"op": "list"}, {"op": "list_all_json"}, {"op": "list_all"}]
+    list_model_checking(ctx)
     tab_column_jobs(ctx, ["Inv_C16"], [{"op": "list_json"}, {"op": "list_all_json"}])
     block_jobs(ctx, ["Inv_C16"], ops, lite=True)
     unwrap_jobs(ctx, ["Inv_C16"], ops, lite=True)
@@ -407,6 +421,12 @@ def ready_toggle(b):
 def check_C05(ctx):
     from vlib import TlaSet
     q = ctx.quick
+    # sanity of the oracle itself: civil-date arithmetic, offsets, class disjointness (no code involved)
+    ctx.mc("eval-dates", "MC_Eval",
+           {"Years": TlaSet([1970, 1999, 2000, 2023, 2024, 2100] if q else [1969, 1970, 1999, 2000, 2001, 2023, 2024, 2025, 2038, 2100, 2400]),
+            "OffMins": TlaSet([-720, -210, 0, 345, 540, 840] if q else list(range(-720, 841, 45))),
+            "Samples": [Chars(x) for x in CANON_TOS + BAD_TOS + BAD_OFFS + ["+09:00", "-0330", "+14:00"]]},
+           ["Successor", "Anchors", "Offsets", "Classes"])
     step = 60 if q else 15
     offs = [m for m in range(-720, 841, step)]
     if q:
